@@ -3,7 +3,7 @@ import re
 
 from .model import GRAPH_CLASSES, LDG, LUG, DMG, UMG, DWG, UWG, NS, short
 from .report import Finding, RuleResult
-from .terms import Terms
+from .terms import Terms, subterms
 from .ir import short_type
 
 NONREENTRANT = {'rand', 'srand', 'strtok', 'localtime', 'gmtime', 'asctime', 'ctime', 'setlocale', 'tmpnam',
@@ -475,11 +475,21 @@ def rule_valsem(m):
         seen.add(k)
         cname = short(r['tname']) + ('<%s>' % r['args'] if r['args'] else '')
         res.sites += 1
-        special = [s for s in ('userdtor', 'usercopyctor', 'usercopyassign', 'usermovector', 'usermoveassign') if r[s]]
-        if special:
-            res.fail(Finding('D-VALSEM', cname, 'user-declared special member', _loc(u, r['loc']),
-                             '%s declares %s: copies are no longer the member-wise deep copies C06/C09 rely on'
-                             % (cname, ', '.join(special))))
+        provided = r.get('provided')
+        if provided is None:
+            provided = [s for s in ('userdtor', 'usercopyctor', 'usercopyassign', 'usermovector', 'usermoveassign') if r[s]]
+        if provided:
+            # a special member with a body written by hand: member-wise semantics must be shown, not assumed (D-COPY)
+            bad, unknown = _special_members_transfer(m, r, provided)
+            if bad:
+                res.fail(Finding('D-VALSEM', cname, 'user-provided %s' % bad[0][0], bad[0][2],
+                                 '%s has a hand-written %s that does not take the member `%s` from its source: the copy / moved-to '
+                                 'object is not the member-wise copy C06/C09/C10 rely on' % (cname, bad[0][0], bad[0][1])))
+            elif unknown:
+                res.broken('D-VALSEM: expected the hand-written %s of %s to be instantiated by a witness cell and to read every '
+                           'member of its source' % (unknown[0], cname))
+            else:
+                res.ok(dict(cls=cname, special_members='hand-written, member-wise: ' + ', '.join(provided)))
         else:
             res.ok(dict(cls=cname, rule_of_zero=True) if len(res.samples) < 4 else None)
         for f in r['fields']:
@@ -492,6 +502,42 @@ def rule_valsem(m):
                 res.ok(dict(cls=cname, field=f['name'], type=f['type']) if len(res.samples) < 8 else None)
     res.require_sites(10, 'classes / fields')
     return res
+
+
+def _special_members_transfer(m, r, provided):
+    """for the user-provided copy / move constructors and assignments of record r: the fields of the source object that the
+    body (or the initialiser list) never reads.  Returns ([(kind, field, where)], [kinds that could not be examined])."""
+    bad, unknown = [], []
+    fields = [fl['name'] for fl in r['fields']]
+    for kind in provided:
+        if kind == 'dtor' or kind == 'userdtor':
+            fs = [f for f in m.fns if f.record == r['tname'] and f.name.startswith('~') and (f.recordargs or '') == (r['args'] or '')]
+            if not fs or any(n['k'] in ('CallExpr', 'CXXMemberCallExpr', 'CXXDeleteExpr', 'BinaryOperator', 'CXXOperatorCallExpr')
+                             for f in fs for n in f.nodes):
+                unknown.append('destructor')
+            continue
+        fs = [f for f in m.fns if f.record == r['tname'] and (f.recordargs or '') == (r['args'] or '') and f.unit.decl(f.decl).get('special') == kind]
+        if not fs:
+            # the member of a class template is one piece of source: any analysed instantiation speaks for it
+            fs = [f for f in m.fns if f.record == r['tname'] and f.unit.decl(f.decl).get('special') == kind]
+        if not fs:
+            unknown.append(kind)
+            continue
+        for f in fs[:1]:
+            src = ('var', f.params[0]) if f.params else None
+            tt = Terms(f)
+            read = set()
+            nodes = list(f.nodes)
+            for t in [tt.t(n['i']) for n in nodes if n['k'] in ('MemberExpr',)]:
+                for st in subterms(t):
+                    if st[0] == 'member' and st[1] == src:
+                        read.add(st[2].split('::')[-1])
+            # whole-object forms: `*this = other`-style delegation or a base-class / delegating initialiser taking the source
+            whole = any(i.get('delegating') for i in f.d.get('inits', []))
+            for name in fields:
+                if name not in read and not whole:
+                    bad.append((kind.replace('-', ' ').replace('ctor', 'constructor').replace('assign', 'assignment'), name, f.where()))
+    return bad, unknown
 
 
 SCALARS = ('unsigned', 'int', 'long', 'short', 'char', 'bool', 'double', 'float', 'size_t')
@@ -539,6 +585,65 @@ def rule_init(m):
                                  'through it read an indeterminate value' % (f.display(), ', '.join(short_type(c) for c in f.cptypes)[:80],
                                                                           ct, name, loc)))
     res.require_sites(10, 'constructor x scalar member')
+    return res
+
+
+STD_THROWERS = ('at', 'substr', 'stoi', 'stol', 'stoul', 'stoll', 'stoull', 'stof', 'stod', 'stold')
+
+
+def rule_noexcept(m):
+    """D-NOEXCEPT: a function whose exceptions are part of the contract is not declared non-throwing."""
+    from .rules_ts import _fixture_functions, _fixture_verdict
+    res = RuleResult('D-NOEXCEPT', 'no library function that can raise an exception - it contains a throw, calls a library function '
+                                   'that does, or calls a standard function specified to throw on bad input (at, substr, sto*) - has a '
+                                   'non-throwing exception specification: the exception the callers and the documentation rely on '
+                                   'would become std::terminate')
+    may = {}
+
+    def may_throw(f, depth=0):
+        k = id(f)
+        if k in may:
+            return may[k]
+        may[k] = None
+        why = None
+        if m.throw_sites(f):
+            why = 'contains a throw'
+        for n in f.nodes:
+            if why:
+                break
+            if n['k'] == 'CXXThrowExpr':
+                why = 'contains a throw'
+            elif n['k'] in ('CallExpr', 'CXXMemberCallExpr') and 'callee' in n:
+                cd = f.unit.decl(n['callee'])
+                if cd.get('tname', '').startswith('std::') and cd.get('name') in STD_THROWERS and not cd.get('nothrow'):
+                    why = 'calls %s, which throws on bad input' % cd['tname']
+                elif depth < 6:
+                    g = f.unit.function_for_decl(n['callee'])
+                    if g is not None and g.tname.startswith(NS) and not g.unit.decl(g.decl).get('nothrow'):
+                        w = may_throw(g, depth + 1)
+                        if w:
+                            why = 'calls %s, which %s' % (g.display(), w)
+        if any(n['k'] == 'CXXTryStmt' for n in f.nodes):
+            why = None          # (handled locally: not judged)
+        may[k] = why
+        return why
+    for f in list(m.fns) + _fixture_functions('noexcept'):
+        if not f.tname.startswith(NS) or f.is_lambda:
+            continue
+        res.sites += 1
+        d = f.unit.decl(f.decl)
+        if not d.get('nothrow') or f.name.startswith('~'):
+            res.ok(None, fn=f.display())
+            continue
+        why = may_throw(f)
+        if why:
+            res.fail(Finding('D-NOEXCEPT', f.display(), 'noexcept', f.where(),
+                             '%s is declared non-throwing but %s: the exception never reaches the caller, the process is '
+                             'terminated instead' % (f.display(), why[:200])))
+        else:
+            res.ok(dict(function=f.display(), nothrow=True, throws=False) if len(res.samples) < 6 else None, fn=f.display())
+    _fixture_verdict(res, 'noexcept')
+    res.require_sites(100, 'functions')
     return res
 
 
